@@ -177,6 +177,31 @@ func checkQueries(es entrySet, c *kademlia.Cache[int], q []byte, maxBucket bool)
 	if len(seq) > 1 {
 		run.Outcome(fmt.Sprintf("order-checked n=%d", len(seq)))
 	}
+	// a query issued from inside a query's callback (both are readers) must leave the outer
+	// enumeration intact: same sequence as the plain one
+	if len(es.keys) > 1 {
+		inv := make([]byte, len(q))
+		for i := range q {
+			inv[i] = ^q[i]
+		}
+		var nested [][]byte
+		guard("panic", "ForEach", witness(), func() {
+			c.ForEach(q, func(e kademlia.Entry[int]) bool {
+				nested = append(nested, e.Key)
+				c.ForEach(inv, func(kademlia.Entry[int]) bool { return true })
+				c.Closest(es.locus)
+				return true
+			})
+		})
+		run.Add("evaluations", 1)
+		same := len(nested) == len(seq)
+		for i := 0; same && i < len(seq); i++ {
+			same = refCmp(q, nested[i], seq[i]) == 0
+		}
+		if !same {
+			run.Violate(evid.Violation{Kind: "foreach-disturbed-by-nested-query", Site: "Cache.ForEach", Detail: fmt.Sprintf("locus=%x query=%x: with another query issued from the callback the enumeration visits %x, alone it visits %x", es.locus, q, nested, seq), Witness: witness()})
+		}
+	}
 	// Closest is a true minimum
 	guard("panic", "Closest", witness(), func() {
 		cl := c.Closest(q)
